@@ -167,6 +167,7 @@ class State:
     self.matchers = finding_matchers(prop.ID)
     self.first_fail_t = None
     self.shrink_budget = None
+    self.witness = {}
 
   def handle(self, spec, outcome, raise_on_fail=True):
     self.evals += 1
@@ -179,6 +180,8 @@ class State:
           self.samples.append(abbreviate(jsonable(spec)))
     for c in outcome.get('cls', ()):
       self.classes[c] += 1
+      if c in getattr(self.prop, 'WITNESS_CLASSES', ()) and c not in self.witness:
+        self.witness[c] = jsonable(spec)
     self.dontcare += outcome.get('dc', 0)
     fresh = []
     for kind, detail in outcome.get('viol', ()):
@@ -211,7 +214,7 @@ class State:
     return {'evals': self.evals, 'nt': sorted(self.nt), 'classes': dict(self.classes),
             'dontcare': self.dontcare, 'kinds': dict(self.kinds), 'known': dict(self.known),
             'suspended_hits': dict(self.suspended_hits), 'fail': self.fail,
-            'samples': self.samples}
+            'samples': self.samples, 'witness': self.witness}
 
 
 def note_inflight(spec):
@@ -467,6 +470,8 @@ def merge(total, part):
   for s in part['samples']:
     if len(total['samples']) < 3:
       total['samples'].append(s)
+  for k, v in part.get('witness', {}).items():
+    total.setdefault('witness', {}).setdefault(k, v)
 
 
 def write_replay(prop_id, seed_value, idx, fail, tier):
@@ -579,6 +584,12 @@ def run_check(prop_id, tier, seed_value, replay=None):
       if errors or killed or not new_kinds:
         break
       suspended |= new_kinds
+
+  # cross-case consistency (e.g. C03: all omissions of a run must be explainable by the same reading of a constraint)
+  if hasattr(prop, 'cross_case') and not errors:
+    f = prop.cross_case(total.get('witness', {}))
+    if f is not None and not set(f['kinds']) <= suspended:
+      failures.append(f)
 
   wall = time.time() - t0
   if errors:
